@@ -22,8 +22,8 @@ theorem stepUp_ps (h : PsInv rec) (rest : List Str) (fl : FL) (ps : PS) :
   unfold stepUp
   split <;> simp [h _ _ _ _]
 
-theorem stepText_ps (node : Val) (tok : Str) (rest : List Str) (eq : Bool) (v : Str) (fl : FL) (ps : PS) :
-    (stepText rec node tok rest eq v fl ps).ps = ps := by
+theorem stepText_ps (node : Val) (rest : List Str) (eq : Bool) (v : Str) (fl : FL) (ps : PS) :
+    (stepText rec node rest eq v fl ps).ps = ps := by
   unfold stepText
   repeat' split
   all_goals rfl
@@ -54,7 +54,7 @@ theorem step_ps (h : PsInv rec) (node : Val) (toks : List Str) (fl : FL) (ps : P
   · split
     · exact stepUp_ps re h _ _ _
     · rfl
-    · exact stepText_ps _ _ _ _ _ _ _
+    · exact stepText_ps _ _ _ _ _ _
     · exact stepIdx_ps re _ _ _ _ _
     · exact stepStar_ps re _ _ _ _
     · exact stepName_ps re h _ _ _ _ _
@@ -75,11 +75,11 @@ theorem fa_ps (re : Bool) : ∀ (fuel : Nat) (node : Val) (toks : List Str) (fl 
 section
 variable {rec : Val → List Str → FL → PS → Out} (re : Bool)
 
-theorem stepText_fl_nil (node : Val) (tok : Str) (rest : List Str) (eq : Bool) (v : Str) (ps : PS) :
-    (stepText rec node tok rest eq v [] ps).fl = [] := by
+theorem stepText_fl_nil (h : FlInv rec) (node : Val) (rest : List Str) (eq : Bool) (v : Str) (ps : PS) :
+    (stepText rec node rest eq v [] ps).fl = [] := by
   unfold stepText
   repeat' split
-  all_goals first | rfl | simp_all
+  all_goals first | rfl | exact h _ _ _
 
 theorem stepIdx_fl_nil (node : Val) (rest : List Str) (i : Int) (ps : PS) :
     (stepIdx rec re node rest i [] ps).fl = [] := by
@@ -107,7 +107,7 @@ theorem step_fl_nil (h : FlInv rec) (node : Val) (toks : List Str) (ps : PS) :
   · split
     · unfold stepUp; split <;> rfl
     · rfl
-    · exact stepText_fl_nil _ _ _ _ _ _
+    · exact stepText_fl_nil h _ _ _ _ _
     · exact stepIdx_fl_nil re _ _ _ _
     · exact stepStar_fl_nil re _ _ _
     · exact stepName_fl_nil re h _ _ _ _
@@ -116,7 +116,7 @@ end
 
 /-- **an empty list object stays empty**: the in-place updates `found_xpath_list[-1] += …` /
 `found_xpath_list[-1] = …` are only reached after the local name was rebound to a fresh `[""]`
-(index and `[*]` steps) or raise before writing (`text()` on a root scalar) -/
+(index and `[*]` steps) -/
 theorem fa_fl_nil (re : Bool) : ∀ (fuel : Nat) (node : Val) (toks : List Str) (ps : PS),
     (fa re fuel node toks [] ps).fl = [] := by
   intro fuel
@@ -639,9 +639,7 @@ theorem step_sub {t : Val} {rec : Val → List Str → FL → PS → Out} (hr : 
         · cases h
         · split at h
           · cases h
-          · split at h
-            · cases h
-            · exact hr _ _ _ _ hn (hps.push _ hn) f h
+          · exact hr _ _ _ _ hn (hps.push _ hn) f h
       · cases h
     · -- index
       unfold stepIdx at h
@@ -736,7 +734,7 @@ theorem step_dl (h : FlDL rec) (node : Val) (toks : List Str) (fl : FL) (ps : PS
     · rfl
     · unfold stepText
       repeat' split
-      all_goals first | rfl | (simp only [h _ _ _ _, setLast_dropLast])
+      all_goals first | rfl | (simp only [h _ _ _ _])
     · unfold stepIdx
       repeat' split
       all_goals first | rfl | (simp only [h _ _ _ _, setLast_dropLast]; done) | (simp only [h _ _ _ _, setLast_dropLast]; simp_all)
